@@ -885,6 +885,29 @@ func ruleRetryAfterInstall(c *Ctx) {
 		return true
 	})
 	c.check(found, rule, fi.Name, "retry uses each held operation's own instance and operation", pos, "addEntryInternal(e.ni, e.op, …) for every e of getPending()", "the retry walk does not re-submit each held entry with its own network instance and operation")
+	// every held operation is retried: no path through the retry loop's body skips the re-submission
+	inspectNoFuncLit(fi.Decl.Body, func(n ast.Node) bool {
+		rs, ok := n.(*ast.RangeStmt)
+		if !ok {
+			return true
+		}
+		call, ok := ast.Unparen(rs.X).(*ast.CallExpr)
+		if !ok || !isMethod(calleeObj(info, call), ribPkg, "RIB", "getPending") {
+			return true
+		}
+		lp, _ := enumPaths(info, rs.Body.List, ev)
+		skip := ""
+		for _, p := range lp {
+			if p.End == "return" || p.End == "panic" {
+				continue
+			}
+			if !p.has("retry") {
+				skip = p.describe(c.P)
+			}
+		}
+		c.check(skip == "", rule, fi.Name, "every held operation is retried", c.P.pos(rs.Pos()), fmt.Sprintf("%d paths through the retry loop body, all re-submit", len(lp)), "a held operation can be skipped by the retry walk although something was just installed: it stays unanswered while resolvable ("+skip+")")
+		return true
+	})
 	// getPending returns every pending entry
 	if gp := c.need("rib", "RIB", "getPending"); gp != nil {
 		ginfo := gp.Pkg.TypesInfo
